@@ -4,7 +4,7 @@ import PySMT.Impl.Subst
 import PySMT.Core.FreeVars
 import PySMT.Gen.ParserOps
 /-!
-# `Impl.Parser` — model of `pysmt/smtlib/parser/parser.py` (after the repairs F13, F13b, F14, F15, F15c, F31, F38, F40)
+# `Impl.Parser` — model of `pysmt/smtlib/parser/parser.py` (after the repairs F13, F13b, F14, F15, F15c, F31, P02, P04; ids as in known_findings.d/C08.json, C09.json)
 
 pySMT's reading of SMT-LIB text, as an elaborator over the same `Sexp` the standard reader (`Spec/SmtlibText.lean`)
 works on. The tokenizer (`parser.py:146-303`) is *not* modelled character by character: the model starts from the
